@@ -29,6 +29,8 @@ CmdInfo(c) ==
     \* C: Chassis Control (Chassis 00h/02h, power down): the response has no body, so nothing but the message header
     \* (network function, command) and the completion code ties a reply to the request
     [] c = "C" -> [api |-> "Cmd", cmd |-> "ChassisControl", netfn |-> 0, num |-> 2, body |-> <<0>>]
+    \* X: Set Session Privilege Level with the reserved level 01h: the request layer refuses to serialise it (22.18)
+    [] c = "X" -> [api |-> "Cmd", cmd |-> "SetSessionPrivilegeLevel", netfn |-> 6, num |-> 59, body |-> <<1>>, args |-> [Req |-> [PrivilegeLevel |-> 1]]]
     \* G, H: two Group Extension (2Ch) commands with the DCMI body code DCh (02h Get Power Reading, 07h Get DCMI Sensor Info numbers)
     [] c = "G" -> [api |-> "Raw", cmd |-> "Raw", netfn |-> 44, num |-> 2, body |-> <<1, 0, 0>>, group |-> 220]
     [] c = "H" -> [api |-> "Raw", cmd |-> "Raw", netfn |-> 44, num |-> 7, body |-> <<1, 64, 0, 1>>, group |-> 220]
@@ -38,6 +40,7 @@ BodyBytes(c, mk)  == CASE c = "A" -> <<mk, 129, 2, 21, 2, 191, 162, 2, 0, 52, 18
                        [] c = "B" -> <<mk>> \o [i \in 1..15 |-> 200 + i]
                        [] c = "R" -> <<mk, 1, 2, 3>>
                        [] c = "C" -> <<>>
+                       [] c = "X" -> <<mk % 16>>
                        [] c = "G" -> <<220, mk, 9, 9>>
                        [] c = "H" -> <<220, mk, 0>>
 Marker(call, n) == call * 16 + n
@@ -67,6 +70,8 @@ Dgram(d) ==
                     [] OTHER -> SessPacket(S, sq, SetByte(msg, 2, (msg.v[3] + 1) % 256), iv))
             [] d.kind = "badsig"   -> SessPacketWith(S, 192, Var("sidM"), sq, msg, iv, B(Repeat(7, 20)), Ref("K2"))
             [] d.kind = "unauth"   -> NullWrapper(0, msg)
+            \* unencrypted, unauthenticated IPMI payload carrying this session's ID and a plausible sequence number
+            [] d.kind = "unauthmine" -> Cat(<< Rmcp, B(<<6, 0>>), Var("sidM"), B(sq), Len16(msg), msg >>)
             [] d.kind = "wrongsid" -> SessPacketWith(S, 192, B(<<9, 9, 9, 9>>), sq, msg, iv, Ref("K1"), Ref("K2"))
             [] d.kind = "badpad"   ->
                  LET pl == Cat(<< B(iv), Aes(Ref("K2"), B(iv), Cat(<< msg, B(BadPadBytes(TLen(msg))) >>)) >>)
@@ -91,6 +96,7 @@ OutcomeAt(e) ==
        [] o.kind = "stale"    -> << <<[A(o.other, o.cc) EXCEPT !.kind = "stale"]>>, <<>> >>
        [] o.kind = "badsig"   -> << <<[A(c, "ok") EXCEPT !.sig = FALSE, !.kind = "badsig"]>>, <<>> >>
        [] o.kind = "unauth"   -> << <<[A(c, "ok") EXCEPT !.sig = FALSE, !.flag = FALSE, !.sid = "null", !.kind = "unauth"]>>, <<>> >>
+       [] o.kind = "unauthmine" -> << <<[A(c, "ok") EXCEPT !.sig = FALSE, !.flag = FALSE, !.kind = "unauthmine"]>>, <<>> >>
        [] o.kind = "wrongsid" -> << <<[A(c, "ok") EXCEPT !.sid = "other", !.kind = "wrongsid"]>>, <<>> >>
        [] o.kind = "badpad"   -> << <<[A(c, "ok") EXCEPT !.dec = FALSE, !.kind = "badpad"]>>, <<>> >>
 
@@ -109,6 +115,7 @@ CallStep(e) ==
                  THEN [netfn |-> ci.netfn, cmd |-> ci.num, lun |-> 0, body |-> ci.body, bodyCode |-> ci.group]
                  ELSE [netfn |-> ci.netfn, cmd |-> ci.num, lun |-> 0, body |-> ci.body]]
   ELSE [k |-> "call", api |-> "Cmd", cmd |-> ci.cmd, label |-> e.cmd, target |-> IF InSession THEN "sess" ELSE "conn"]
+       @@ (IF "args" \in DOMAIN ci THEN [args |-> ci.args] ELSE <<>>)
 Step(e) == IF e.k = "call" THEN CallStep(e) ELSE React(e)
 
 Script(h) == [id |-> ToString(Len(h)) \o "-" \o ToString(TLCGet("distinct")),
@@ -120,7 +127,7 @@ Header == [header |-> TRUE, family |-> "console",
            prefixes |-> [hs |-> HandshakeSteps(S)],
            suite |-> [authNum |-> AuthNum, integNum |-> IntegNum, integLen |-> S.integLen, bmcSid |-> S.bmcSid],
            cmds |-> [c \in Cmds |-> [netfn |-> CmdInfo(c).netfn, num |-> CmdInfo(c).num, body |-> CmdInfo(c).body,
-                                      name |-> (CASE c = "A" -> "Get Device ID" [] c = "B" -> "Get System GUID" [] c = "C" -> "Chassis Control" [] OTHER -> "Raw"),
+                                      name |-> (CASE c = "A" -> "Get Device ID" [] c = "B" -> "Get System GUID" [] c = "C" -> "Chassis Control" [] c = "X" -> "Set Session Privilege Level" [] OTHER -> "Raw"),
                                       nobody |-> (c = "C"),
                                       wire |-> (IF "group" \in DOMAIN CmdInfo(c) THEN <<CmdInfo(c).group>> ELSE <<>>) \o CmdInfo(c).body]]]
 ASSUME PrintT(<<"HEADER", ToJson(Header)>>)
